@@ -1004,7 +1004,33 @@ func engineLevel(enc *json.Encoder, tmp string, rng *rand.Rand, ngroups int) {
 				o.Group, o.Alt, o.Msg, o.Sugg, o.At, o.WGroup = s.group, s.alt, g.msg, g.suggest, g.at, g.wgroup
 				o.Rule = "m.Match(`" + patText(s.group, s.alt) + "`)"
 				o.Whole = capSpec{Text: v.src[from:to], From: from, To: to}
-				break
+				return o
+			}
+		}
+		// every syntax-rule site has its report: the run stopped among the comment rules (they run after the syntax rules, comment
+		// by comment) -- the first comment whose expected report is missing
+		for _, cg := range v.t.File.Comments {
+			for _, cm := range cg.List {
+				base := v.t.Fset.PositionFor(cm.Pos(), false).Offset
+				if base+len(cm.Text) > len(v.src) || string(v.src[base:base+len(cm.Text)]) != cm.Text {
+					continue
+				}
+				exp := cfSimulate(commentRules, cm.Text, base)
+				if exp.rule < 0 {
+					continue
+				}
+				seen := false
+				for _, r := range reports {
+					if r.Group == commentRules[exp.rule].group && r.Pos >= base && r.Pos <= base+len(cm.Text) {
+						seen = true
+						break
+					}
+				}
+				if !seen {
+					r := commentRules[exp.rule]
+					o.Comment, o.Rule, o.Msg, o.Sugg, o.At, o.WGroup = cm.Text, r.describe(exp.alt), r.reportMsg(), r.sugg, r.at, r.group
+					return o
+				}
 			}
 		}
 		return o
